@@ -1188,6 +1188,11 @@ func NewVHostPathRewriter(slashesCount int) PathRewriteFunc {
 		if n := bytes.IndexByte(host, '/'); n >= 0 {
 			host = nil
 		}
+		// the host becomes a path segment: one that stands for "this" or "the parent"
+		// directory must not be resolved as such
+		if string(host) == "." || string(host) == ".." {
+			host = nil
+		}
 		if len(host) == 0 {
 			host = strInvalidHost
 		}
